@@ -94,7 +94,6 @@ buf = shm.read_buffer(offset, length)
 resolved_batch = _deserialize_from_shm(buf, batch.schema)
 resolved_cm = strip_keys(custom_metadata, SHM_OFFSET_KEY, SHM_LENGTH_KEY)
 resolved_cm = merge_metadata(resolved_cm, {SHM_SOURCE_KEY: shm.name.encode()})
-
 def release_fn() -> None:
     shm.free(offset)
 return (resolved_batch, resolved_cm, release_fn)"""
